@@ -893,6 +893,13 @@ func ptrOrigin(v ssa.Value) ssa.Value {
 			if x.Op != token.MUL {
 				return v
 			}
+			if fa, ok := x.X.(*ssa.FieldAddr); ok {
+				if t := localStructField(fa); t != nil {
+					v = t
+					continue
+				}
+				return v
+			}
 			cell := cellOf(x.X)
 			if cell == nil {
 				return v
